@@ -96,7 +96,10 @@ def parse_stream(kind, frags, close_at_end):
                     p.close()
                     pump()
     except core.Hang:
-        return "raised", "did not return"
+        import traceback
+        import sys as _sys
+        fr = traceback.extract_tb(_sys.exc_info()[2])[-3:]
+        return "raised", "did not return (in %s)" % "; ".join("%s:%d %s" % (f.filename.split("/")[-1], f.lineno, f.name) for f in fr)
     except Exception as ex:
         return "raised", "%s: %s" % (type(ex).__name__, ex)
     if results and results[-1]["errored"]:
@@ -261,8 +264,14 @@ def _pipe_job(args):
 
 def run_pipes(ctx, kind, pipes, full_idx):
     """message level, spread over worker processes (forked: they share the loaded tree); results come back in order"""
+    import gc
     import multiprocessing
     jobs = [(kind, pipe, ctx.quick, i in full_idx) for i, pipe in enumerate(pipes)]
+    # the parent's heap (millions of objects parsed from TLC's output) is inherited by the workers: frozen, so that their
+    # garbage collector never walks it (a full collection of it takes CPU seconds and would be counted against the code
+    # under test by the watchdog)
+    gc.collect()
+    gc.freeze()
     with multiprocessing.get_context("fork").Pool(12) as pool:
         for (kindx, pipe, _, _), (bad, divs, parts) in zip(jobs, pool.imap(_pipe_job, jobs, chunksize=8)):
             for d in divs:
@@ -271,6 +280,7 @@ def run_pipes(ctx, kind, pipes, full_idx):
             ctx.parts = getattr(ctx, "parts", 0) + parts
             if bad:
                 ctx.violation("%s: %s" % ("Requestant" if kind == "req" else "Respondent", bad), {"kind": "message", "side": kind, "pipe": pipe})
+    gc.unfreeze()
 
 
 def run(ctx):
